@@ -3,6 +3,8 @@ package main
 import (
 	"fmt"
 	"go/types"
+	"os"
+	"strings"
 )
 
 // Harness API (functions named v* in the package under test, declared in
@@ -33,7 +35,12 @@ func init() {
 		if n.op != OpConst {
 			in.unsupported("vChoose with symbolic bound")
 		}
-		k := in.choose(int(n.val))
+		var k int
+		if fx := in.cfg.Fixed; fx != nil && len(in.path.nondet) < len(fx) && len(fx[len(in.path.nondet)].Vals) > 0 {
+			k = int(fx[len(in.path.nondet)].Vals[0])
+		} else {
+			k = in.choose(int(n.val))
+		}
 		t := in.tt.BV(64, uint64(k))
 		in.path.nondet = append(in.path.nondet, NondetRec{Kind: "choose", Terms: []*Term{t}})
 		return t
@@ -41,6 +48,9 @@ func init() {
 	vIntrinsics["vRange"] = func(in *Interp, fr *frame, args []Value) Value {
 		lo, hi := args[0].(*Term), args[1].(*Term)
 		v := in.nondetVar("int", 64)
+		if v.op == OpConst {
+			return v
+		}
 		in.addPC(in.tt.Cmp(OpSle, lo, v))
 		in.addPC(in.tt.Cmp(OpSle, v, hi))
 		return v
@@ -56,6 +66,9 @@ func init() {
 		bs := make([]*Term, n.val)
 		for i := range bs {
 			bs[i] = in.tt.Var(fmt.Sprintf("n%d_b%d", idx, i), 8)
+			if fx := in.cfg.Fixed; fx != nil && idx < len(fx) && i < len(fx[idx].Vals) {
+				bs[i] = in.tt.BV(8, fx[idx].Vals[i])
+			}
 			rec.Terms = append(rec.Terms, bs[i])
 		}
 		p.nondet = append(p.nondet, rec)
@@ -76,6 +89,9 @@ func init() {
 		bs := make([]*Term, n.val)
 		for i := range bs {
 			bs[i] = in.tt.Var(fmt.Sprintf("n%d_s%d", idx, i), 8)
+			if fx := in.cfg.Fixed; fx != nil && idx < len(fx) && i < len(fx[idx].Vals) {
+				bs[i] = in.tt.BV(8, fx[idx].Vals[i])
+			}
 			rec.Terms = append(rec.Terms, bs[i])
 		}
 		p.nondet = append(p.nondet, rec)
@@ -134,6 +150,28 @@ func init() {
 		}}
 	}
 	vIntrinsics["vObserve"] = func(in *Interp, fr *frame, args []Value) Value {
+		return nil
+	}
+	// vDebug(label, values...) prints engine values when tracing (engine only)
+	vIntrinsics["vDebug"] = func(in *Interp, fr *frame, args []Value) Value {
+		if in.cfg.Trace && in.path != nil {
+			var vs []Value
+			if sl, ok := args[1].(Slice); ok && sl.arr != nil {
+				vs = in.sliceElems(sl)
+			}
+			lbl0, _ := args[0].(Str).conc()
+			in.path.debug = append(in.path.debug, debugRec{lbl0, vs})
+		}
+		if in.cfg.Trace {
+			lbl, _ := args[0].(Str).conc()
+			var parts []string
+			if sl, ok := args[1].(Slice); ok && sl.arr != nil {
+				for _, e := range in.sliceElems(sl) {
+					parts = append(parts, showValue(e))
+				}
+			}
+			fmt.Fprintf(os.Stderr, "DEBUG %s: %s\n", lbl, strings.Join(parts, " | "))
+		}
 		return nil
 	}
 	// vIsConcrete-style helpers are deliberately absent: harness code must
